@@ -1259,3 +1259,40 @@ fn vm_basic() {
         InterpreterResult::Value(Value::Quantity(Quantity::from_scalar(42.0 + 1.0)))
     );
 }
+
+// verification hook (property C06/C07): read-only view of the VM's session state
+#[cfg(feature = "verif")]
+impl Vm {
+    /// the value stack (globals live here), the last result
+    pub(crate) fn verif_c06_stack(&self) -> (&[Value], Option<&Value>) {
+        (&self.stack, self.last_result.as_ref())
+    }
+
+    /// names of struct types known to the VM (definition order) and of user/foreign functions with chunks
+    pub(crate) fn verif_c06_names(&self) -> (Vec<String>, Vec<String>) {
+        (
+            self.struct_infos.keys().map(|k| k.to_string()).collect(),
+            self.bytecode.iter().map(|(n, _, _)| n.to_string()).collect(),
+        )
+    }
+
+    /// structural counters: `chunks main_len ip frames stack constants prefixes strings unit_infos ffi_args at_end`
+    pub(crate) fn verif_c06_structure(&self) -> String {
+        format!(
+            "chunks={} main={} ip={} frames={} fidx={} fp={} stack={} consts={} prefixes={} strings={} unitinfo={} ffiargs={} chunkidx={}",
+            self.bytecode.len(),
+            self.bytecode[0].1.len(),
+            self.frames.last().map(|f| f.ip).unwrap_or(usize::MAX),
+            self.frames.len(),
+            self.frames.last().map(|f| f.function_idx).unwrap_or(usize::MAX),
+            self.frames.last().map(|f| f.fp).unwrap_or(usize::MAX),
+            self.stack.len(),
+            self.constants.len(),
+            self.prefixes.len(),
+            self.strings.len(),
+            self.unit_information.len(),
+            self.ffi_call_args.len(),
+            self.current_chunk_index,
+        )
+    }
+}
